@@ -444,11 +444,18 @@ func buildEV(e *EVv) reflect.Value {
 	panic("bad EV")
 }
 
-// eqPolicy: 1 = always equal, otherwise always the error E<200+id>
+// eqPolicy: 1 = always equal; 3 = equal exactly when the peer arrives as a native Stack / Condition (what a nested node's
+// policy is handed, whatever form the peer had in its parent); otherwise always the error E<200+id>
 func eqPolicy(id int) stackage.EqualityPolicy {
-	return func(_, _ any) error {
+	return func(_, peer any) error {
 		if id == 1 {
 			return nil
+		}
+		if id == 3 {
+			switch peer.(type) {
+			case stackage.Stack, stackage.Condition:
+				return nil
+			}
 		}
 		return errOf(200 + id)
 	}
@@ -688,7 +695,7 @@ func genEqStack(r *rand.Rand, depth int, form string) V {
 		c.Sym = []string{"+", "&", "plus"}[r.Intn(3)] // presentation only: must not enter the kind comparison
 	}
 	if r.Intn(40) == 0 {
-		c.Eqf = 1 + r.Intn(2)
+		c.Eqf = 1 + r.Intn(3)
 	}
 	v := V{T: 'K', Form: form, Cfg: c}
 	for i := 0; i < n; i++ {
@@ -700,7 +707,7 @@ func genEqStack(r *rand.Rand, depth int, form string) V {
 func genEqCond(r *rand.Rand, depth int, form string) V {
 	v := V{T: 'C', Form: form, Kw: eqKws[r.Intn(len(eqKws))], Op: eqOps[r.Intn(len(eqOps))]}
 	if r.Intn(40) == 0 {
-		v.Cfg.Eqf = 1 + r.Intn(2)
+		v.Cfg.Eqf = 1 + r.Intn(3)
 	}
 	var ex V
 	switch k := r.Intn(10); {
